@@ -160,6 +160,8 @@ class Adc(Probe):
 
     def _post(self, obj):
         """apply phase compensation, weights and reduction"""
+        if isinstance(obj, dict):
+            return obj  # custom probe value: nothing to compensate
         arr = np.asarray(obj)
         # phase
         if self.phase is not None:
